@@ -119,7 +119,13 @@ func (ee *exprEval) evalTransform(assign Scope, x *sysl.Expr_Transform_, e *sysl
 	}
 	argValue := Eval(ee, assign, arg)
 	dotValue, hasDot := assign["."]
+	// The transform binds its scope variable while it runs and deletes it when it
+	// is done: an outer variable of the same name must come back afterwards.
+	scopeVarValue, hasScopeVar := assign[x.Transform.Scopevar]
 	defer func() {
+		if hasScopeVar {
+			assign[x.Transform.Scopevar] = scopeVarValue
+		}
 		if hasDot {
 			assign["."] = dotValue
 		}
